@@ -49,6 +49,8 @@ class Contract:
     instances: list = field(default_factory=list)  # function-level instances of requires_forall
     pure_view: bool = False  # callee usable inside spec clauses (deterministic, no effects)
     trusted: bool = False  # contract assumed, not verified (listed in assumptions)
+    global_maps: dict = field(default_factory=dict)  # module-level dict[int, tuple-of-refs] registries: name -> element class ("tuple")
+    global_map_keys: dict = field(default_factory=dict)  # name -> [key expressions over the parameters]: the only keys the function may change
     entry_closure: bool = False  # assume the entry heap is closed: every reference stored in an object allocated at entry was allocated at entry
     self_cls: str | None = None
     # ghost lemma applications at function end: statements evaluated before checking ensures
